@@ -409,6 +409,49 @@ def statuses (t : Tree) : List Req → List Nat
   | [] => []
   | r :: rs => (step t r).1 :: statuses (step t r).2 rs
 
+/-! ### RFC 4918 reference: the effect a successful request has on the tree
+
+  Stated on the lookup function, independently of the implementation model above:
+  PUT binds the target to the new content, MKCOL to an empty collection, DELETE removes the
+  subtree, COPY makes the destination subtree an exact image of the source subtree (whatever
+  was at the destination is gone: RFC 4918 §9.8.4), with `Depth: 0` only the collection
+  itself; MOVE = COPY + DELETE of the source (§9.9). -/
+
+abbrev FS := Path → Option Node
+
+/-- the content a successful PUT leaves at its target (`Content-Range`: the patched content) -/
+def putContent (old : Option Node) (r : Req) : Bytes :=
+  match r.range, old with
+  | some (some off), some (.file c) => patch c off r.body
+  | _, _ => r.body
+
+def destOf (r : Req) : Path :=
+  match r.dst with
+  | .ok d => d.segs
+  | _ => []
+
+def rfcEffect (t : FS) (r : Req) : FS :=
+  let src := r.src.segs
+  let dst := destOf r
+  match r.m with
+  | .put => fun q => if q = src then some (.file (putContent (t src) r)) else t q
+  | .mkcol => fun q => if q = src then some .dir else t q
+  | .delete => fun q => if under src q then none else t q
+  | .copy =>
+    if t src = some .dir ∧ r.depth = .zero then
+      fun q => if q = dst then some .dir else if under dst q then none else t q
+    else fun q => if under dst q then t (src ++ q.drop dst.length) else t q
+  | .move => fun q =>
+    if under dst q then t (src ++ q.drop dst.length) else if under src q then none else t q
+  | .get => t
+
+/-- requests for which lighttpd claims RFC behaviour: the destination of a COPY/MOVE is not an
+    existing collection, except an *empty* one as destination of a collection (everything else
+    is lighttpd's documented merge / "copy into the collection" extension) -/
+def Conforming (t : Tree) (r : Req) : Prop :=
+  (r.m = .copy ∨ r.m = .move) → get t (destOf r) = some .dir →
+    get t r.src.segs = some .dir ∧ hasChild (destOf r) t = false
+
 /-! ### Destination header (mod_webdav_copymove_b) -/
 
 def idxOf (b : UInt8) : Bytes → Option Nat
